@@ -68,6 +68,11 @@ def verdict (st : St) (env : Spec.Env) (op : Spec.OpReq) (o : Obs) (twinKey : Op
       | .make r => Spec.c11_make env r o
       | .get _ => Spec.c11_get env o
     (if ok then "ok" else "fail:user-handle-stored-or-returned-not-iff-discoverable-under-store-capability", st.twins)
+  else if st.prop = "C18" then
+    -- the trait call must return what the direct method returns (the model, compared line by line) and return at all
+    ((match o.res with
+      | .panic => "fail:trait-call-panicked"
+      | _ => "ok"), st.twins)
   else if st.prop = "C07" then
     let r := match op with
       | .make r => Spec.c07_make env r o
@@ -152,6 +157,18 @@ def step (st : St) (op : List String) (impl : String) : St × String :=
           let model := showObs (obsOfGet out sig)
           let (v, tw') := verdict st env (.get req) io tw
           ({ st with store := { out.store with faults := [] }, implStore := io.store, twins := tw' }, model ++ "\t" ++ v)
+  | ["au.info", uvs] =>
+    match parseUv uvs with
+    | none => (st, "bad-op\tna")
+    | some uv =>
+      let s0 := { st.store with calls := 0, faults := [] }
+      let (info, s1) := getInfo st.cfg uv s0
+      let uvc := match info.2.2.1 with | none => "n" | some false => "f" | some true => "t"
+      let storeS := let so := storeObs s1; if so.isEmpty then "EMPTY" else ";".intercalate (so.map showSnap)
+      let model := s!"res=ok:{bit info.1}:{bit info.2.1}:{uvc}:{bit info.2.2.2}:{hx st.cfg.aaguid} ev=info store={storeS}"
+      -- C18: through the trait the result must be the direct method's (= the model's); anything else, a crash included, fails
+      let verdict := if st.prop = "C18" then (if impl = model then "ok" else "fail:trait-get-info-differs-from-the-direct-method-or-does-not-return") else "na"
+      ({ st with store := { s1 with faults := [] } }, model ++ "\t" ++ verdict)
   | ["au.end"] => (st, "-\tna")
   | _ => (st, "bad-op\tna")
 
